@@ -106,6 +106,20 @@ Definition any_of (op : bytes) (l : list string) : bool := existsb (op_is op) l.
 Definition shape_of (op : bytes) (args : list val) : shape :=
   (* C01 *)
   if any_of op ["d.ymd"; "d.yo"; "d.isoywd"; "d.days"; "d.succ"; "d.pred"]%string then SOpt SDate
+  else if any_of op ["d.pymd"; "d.pyo"; "d.pisoywd"; "d.pdays"; "d.psucc"; "d.ppred"; "ar.opdasg"; "d8.pnthwd"]%string then SDate
+  else if any_of op ["ar.opnasg"; "ar.stdasg"; "ar.opnoff"; "d8.ndt.opaddm"; "d8.ndt.opsubm"]%string then SNdt
+  else if any_of op ["ar.noff"; "ndt.twith"]%string then SOpt SNdt
+  else if any_of op ["ar.zstdasg"; "ar.opzoff"; "z.opmonths"; "z.pfromlocal"]%string then SDtz
+  else if any_of op ["ar.opzdiffref"; "td.opaddasg"; "td.opsubasg"; "td.sumv"]%string then STd
+  else if any_of op ["t.phms"; "t.phms_milli"; "t.phms_micro"; "t.phms_nano"; "t.pnsfm"]%string then STime
+  else if any_of op ["z.peast"; "z.pwest"]%string then SOff
+  else if any_of op ["it.dlast"; "it.wlast"]%string then SOpt SDate
+  else if any_of op ["it.drev"; "it.wrev"]%string then STup [SOpt SDate; SAny]
+  else if op_is op "z.conv" then STup [SDtz; SDtz]
+  else if op_is op "z.mk" then STup [SDtz; SOff; SDtz]
+  else if op_is op "td.consts" then STup [STd; STd; STd; STd; STd]
+  else if any_of op ["td.pweeks"; "td.pdays"; "td.phours"; "td.pminutes"; "td.pseconds"; "td.pmillis"]%string then STd
+  else if op_is op "ts.consts" then STup [SDtz; SInt; SNdt; SDtz; SDtz; SNdt; SNdt; SInt; SInt]
   (* C02 *)
   else if any_of op ["ts.from"; "ts.fromms"; "ts.fromus"; "ts.naive_opt"; "ts.naive_ms"; "ts.naive_us"; "ts.naive_ns"]%string
   then SOpt SNdt
@@ -201,12 +215,22 @@ Definition panicking_by_contract (op : bytes) : bool :=
              "ar.opzadd"; "ar.opzsub"; "ar.opzaddasg"; "ar.opzsubasg"; "ar.opzdiff"; "ar.opzdays"; "ar.zaddstd";
              "t.opadd"; "t.opsub"; "t.opadd_assign"; "t.opsub_assign"; "t.opdiff";
              "t.addstd"; "t.substd"; "t.addstd_assign"; "t.substd_assign"; "t.addoff"; "t.suboff";
-             "ndt.opadd"; "ndt.opsub"; "d8.opaddm"; "d8.opsubm"]%string
+             "ndt.opadd"; "ndt.opsub"; "d8.opaddm"; "d8.opsubm";
+             "td.opaddasg"; "td.opsubasg"; "td.sumv"; "ar.opdasg"; "ar.opnasg"; "ar.stdasg"; "ar.zstdasg"; "ar.opzdiffref";
+             "ar.opnoff"; "ar.opzoff"; "z.opmonths"; "d8.ndt.opaddm"; "d8.ndt.opsubm"]%string
   (* deprecated panicking constructors / accessors *)
-  || any_of op ["ts.tzp"; "ts.tzmsp"; "ts.naive_from"; "ts.ofns"; "ts.naive_ofns"]%string
+  || any_of op ["ts.tzp"; "ts.tzmsp"; "ts.naive_from"; "ts.ofns"; "ts.naive_ofns";
+                "d.pymd"; "d.pyo"; "d.pisoywd"; "d.pdays"; "d.psucc"; "d.ppred";
+                "t.phms"; "t.phms_milli"; "t.phms_micro"; "t.phms_nano"; "t.pnsfm";
+                "z.peast"; "z.pwest"; "z.pfromlocal"; "d8.pnthwd"]%string
   (* panicking by documentation, infallible by type (not entry points of C15); SubsecRound is defined
      over the Add / Sub operators of its carrier (operator arithmetic) *)
-  || any_of op ["d8.wfirstp"; "d8.wlastp"; "d8.wdaysp"; "ts.systime"; "ts.tosys"; "rd.rsub"; "rd.tsub"]%string.
+  || any_of op ["d8.wfirstp"; "d8.wlastp"; "d8.wdaysp"; "ts.systime"; "ts.tosys"; "rd.rsub"; "rd.tsub"]%string
+  (* the panicking unit constructors of TimeDelta (documented: "Panics when the duration is out of bounds") *)
+  || any_of op ["td.pweeks"; "td.pdays"; "td.phours"; "td.pminutes"; "td.pseconds"; "td.pmillis"]%string
+  (* == / hash of NaiveWeek are defined through the panicking first_day(); they do not report failure
+     through a return type: outside C15's claim *)
+  || op_is op "d8.weq".
 
 Definition bad_args (out : val) : bool :=
   match out with VErr n => bytes_eqb n B"BADARGS" || bytes_eqb n B"NOOP" | _ => false end.
